@@ -67,7 +67,8 @@ def _gen_script(rng, i):
   if kind == 'thrift' and rng.random() < 0.5:
     s['pool'] = {'max_watermark': rng.choice([1, 1, 2]), 'min_watermark': rng.choice([0, 1]),
                  'max_queue_len': rng.choice([0, 1, 2, 1000])}
-  template = rng.choice(['random', 'random', 'preopen', 'queue', 'connect', 'latereply', 'faults', 'members', 'sendq', 'pingrace'])
+  template = rng.choice(['random', 'random', 'preopen', 'queue', 'connect', 'latereply', 'faults', 'members', 'sendq', 'pingrace',
+                         'agedtags' if kind == 'mux' else 'random'])
   steps = s['steps']
   nc = [0]
 
@@ -78,7 +79,12 @@ def _gen_script(rng, i):
   if template == 'preopen':
     s['open_timeout'] = 0
     s['plans'] = [rng.choice([['ok', 60], ['ok', 200], ['hang'], ['refuse', 100]]) for _ in range(nep)]
-    issue(rng.choice([23, 53, 107]))
+    T1 = rng.choice([23, 53, 107])
+    if rng.random() < 0.5:
+      # the open completes inside the last timer tick before the first call's deadline: the call reaches
+      # the timeout sink (and every hop below) with 1..9 ms to go
+      s['plans'] = [['ok', T1 - rng.randint(1, 9)] for _ in range(nep)]
+    issue(T1)
     steps.append(['adv', rng.choice([10, 30])])
     issue()
   elif template == 'queue' and kind == 'thrift':
@@ -110,6 +116,23 @@ def _gen_script(rng, i):
     issue(rng.choice([23, 53, 107]))
     steps.append(['adv', rng.choice([10, 100])])
     issue(rng.choice([53, 107]))
+  elif template == 'agedtags':
+    # a long-lived connection: calls in flight with small tags, then the tag counter is fast-forwarded to a
+    # boundary of the tag field (as if that many earlier calls had timed out unanswered), then more calls
+    s['nep'] = 1
+    s['plans'] = [['ok', 0]]
+    s['auto'] = None
+    steps.append(['adv', 50])
+    for _ in range(rng.randint(1, 4)):
+      issue(rng.choice([1003, 5003]))
+    steps.append(['adv', 10])
+    steps.append(['age', rng.choice([253, 254, 32765, 65532, 65533, 65534, 8388605, 16777208, 16777211])])
+    for _ in range(rng.randint(2, 6)):
+      issue(rng.choice([53, 1003, 5003]))
+    steps.append(['adv', 10])
+    for _ in range(rng.randint(2, 8)):
+      steps.append(['reply', rng.choice([0, 5, 4, 3, 1])])
+    steps.append(['adv', 100])
   elif template == 'pingrace' and kind == 'mux':
     # requests whose writes block (peer not reading) all through the window in which the periodic ping
     # (30-40 s after the open) comes due: the ping must wait its turn behind the frame being written
@@ -397,6 +420,8 @@ def run_case(script):
           peer.release(p, payload=b'\x00\x01garbage')
     elif k == 'stepq':
       loop.step(op[1])
+    elif k == 'age':
+      common.age_tag_pools(op[1])
     elif k == 'adv':
       loop.run_for(op[1] / 1000.0)
       loop.settle()
